@@ -92,6 +92,28 @@ func Load(dir string, overlay map[string][]byte, patterns ...string) (*Exec, []*
 	}
 	ex.InitMode = false
 	ex.BaseMax = id
+	// names for package-level variables and the objects they refer to directly (maps, slices, pointers)
+	ex.GlobalNames = map[ObjID]string{}
+	for g, gid := range ex.globals {
+		name := g.Pkg.Pkg.Path() + "." + g.Name()
+		ex.GlobalNames[gid] = name
+		if o, ok := ex.base[gid]; ok {
+			switch v := o.V.(type) {
+			case MapRef:
+				if v.Obj != 0 {
+					ex.GlobalNames[v.Obj] = name
+				}
+			case Ptr:
+				if v.Obj != 0 && ex.GlobalNames[v.Obj] == "" {
+					ex.GlobalNames[v.Obj] = name
+				}
+			case Slice:
+				if v.Arr != 0 && ex.GlobalNames[v.Arr] == "" {
+					ex.GlobalNames[v.Arr] = name
+				}
+			}
+		}
+	}
 	ex.WriteAfterInit = map[string]bool{}
 	ex.RacySites = map[string]bool{}
 	fmt.Fprintf(os.Stderr, "init skipped %d items\n", len(ex.InitSkipped))
